@@ -334,6 +334,25 @@ where
     }
 }
 
+/// Verification hooks (raw state access); only built with the `verif` feature.
+#[cfg(feature = "verif")]
+#[doc(hidden)]
+impl<T, B> BloomFilter<T, B>
+where
+    T: Hash + ?Sized,
+    B: BuildHasher + Clone + Eq,
+{
+    /// Raw bit set.
+    pub fn verif_bits(&self) -> &FixedBitSet {
+        &self.bs
+    }
+
+    /// Raw bit set, mutable.
+    pub fn verif_bits_mut(&mut self) -> &mut FixedBitSet {
+        &mut self.bs
+    }
+}
+
 #[cfg(test)]
 mod tests {
     use super::BloomFilter;
